@@ -9,6 +9,8 @@
      a first token @T / @I / @S (how the harness realises the objects: Type objects of equal name,
      heap Ints, heap Strings) is skipped
      C P          call of a function whose body is P
+     B / K / R    break; / continue; (in a catch handler) / return; (from the enclosing function: C body,
+                  Show method, or the program)
    F<o>,<m> P    throw(X_o, "%$m%i", a, m) / throw(X_o, "%$", a): showing the argument a runs program P
    argv[1] = spec | model, argv[2] = three digits: clear_active_on_catch, throw_records_obj_after_format,
    try_keeps_obj (111 = the repaired code);
@@ -37,6 +39,7 @@ let parse (line : string) : prog =
     | 'T' -> let fs = List.map num (List.filter (fun s -> s <> "") (String.split_on_char '.' rest)) in
              let b = go () in let h = go () in PTry (b, fs, h)
     | 'C' -> PCall (go ())
+    | 'B' -> PExit XBreak | 'K' -> PExit XCont | 'R' -> PExit XReturn
     | _ -> failwith ("bad token " ^ t) in
   let p = go () in
   if !toks <> [] then failwith "trailing tokens";
@@ -57,7 +60,8 @@ let () =
         else
           let ((evs, r), _) = exn_ref O O p in
           print_endline (line_of evs (match r with
-            | RNormal -> "N@0"
+            | RNormal | RExit XReturn -> "N@0"
+            | RExit _ -> "BADEXIT"
             | RRaised (k, m) -> Printf.sprintf "D%d,%d" (i (exn_kind_of k)) (i m)))
       end else begin
         let fl = if Array.length Sys.argv > 2 then Sys.argv.(2) else "111" in
@@ -67,7 +71,8 @@ let () =
           | _ -> failwith "mode: spec | model <clr><oaf><tko>" in
         let ((evs, r), st) = run p exn_init in
         print_endline (line_of evs (match r with
-          | MNormal -> Printf.sprintf "N@%d" (i (exn_depth st))
+          | MNormal | MExit XReturn -> Printf.sprintf "N@%d" (i (exn_depth st))
+          | MExit _ -> "BADEXIT"
           | MJump t -> Printf.sprintf "J%d" (i t)
           | MDied (Some k, m) -> Printf.sprintf "D%d,%d" (i (exn_kind_of k)) (i m)
           | MDied (None, m) -> Printf.sprintf "DNULL,%d" (i m)
